@@ -69,11 +69,11 @@ def check(run):
             insphere.confirm_and_report(run, 'C10', bad[:3], 'C10.a (encoding not buildable: %s)' % str(e)[:80])
         else:
             run.inconclusive.append('C10.a: %s' % e)
-    circumsphere_lemma(run)
+    run.guard(circumsphere_lemma)
     funcs, _ = engine.load_mir('ibig')
-    orientation_of_initial_duals(run, funcs)
-    GR.cuboid(run, funcs, 'C10')
-    GR.right_loc(run, funcs, 'C10')
+    run.guard(orientation_of_initial_duals, funcs)
+    run.guard(GR.cuboid, funcs, 'C10')
+    run.guard(GR.right_loc, funcs, 'C10')
     kanirun.run(run, 'C10', [h for h in (KANI_QUICK if run.tier == 'quick' else KANI_THOROUGH) if h['name'].startswith('iloc')], jobs=12)
     run.bound('grid map, bit-precise (Kani): see kani_harnesses[].bounds; monotonicity: not decided bit-precisely (harness did not finish in 20 min) - over the reals the map is affine with positive slope (cuboid obligation)')
     run.assume('big-integer crate implements Z exactly (its arithmetic is not encoded)')
